@@ -67,6 +67,8 @@ package mr
 // mapper panics; the panic is handed to the caller through panicChan and stops further spawning).
 //@ func executeMappers$2
 //@   prop C07
+//@   observe PanicNil = panicnil(mapper)
+//@   replay mr_panicnil
 //@   may-panic mapper
 //@   opaque write
 //@   ensures [one-item-one-mapper-call] calls(mapper) == 1 && arg(mapper, 0) == item
@@ -89,6 +91,8 @@ package mr
 //@   ensures [one-generator-goroutine] calls("go buildSource$1") == 1 && result != nil
 //@ func buildSource$1
 //@   prop C07
+//@   observe PanicNil = panicnil(generate)
+//@   replay mr_panicnil
 //@   opaque write
 //@   may-panic generate
 //@   nopanic
